@@ -178,20 +178,22 @@ Definition unfresh (f p : option obj) : option obj :=
 
 Lemma G_inc s e f p :
   GInv s e f ->
-  (forall o, p = Some o -> isf f o = true \/ 0 < cnt (vars s) o + e o) ->
+  (forall o, p = Some o -> isf f o = true \/ 0 < cnt (vars s) o + e o \/
+                           (exists c, nth_error (cells s) o = Some c /\ dcount c = 0)) ->
   GInv (inc_reference s p) (fun x => e x + ptsO p x) (unfresh f p).
 Proof.
   intros HG Hp. destruct p as [o|]; simpl.
   2:{ apply (G_ext _ _ _ _ HG). intros; lia. }
   destruct HG as [Hb H]. pose proof (H o) as Ho.
   destruct (nth_error (cells s) o) as [c|] eqn:Hc.
-  2:{ destruct Ho as [Hz Hf]. destruct (Hp o eq_refl) as [Hf'|Hpos]; [congruence|lia]. }
+  2:{ destruct Ho as [Hz Hf]. destruct (Hp o eq_refl) as [Hf'|[Hpos|(c & Hcc & _)]]; [congruence|lia|congruence]. }
   assert (o < length (cells s)) as Hlt by (apply nth_error_Some; congruence).
   destruct Ho as [Hrc Hdc].
-  assert (dcount c = 0 /\ orph c = 0) as [Hd0 Ho0].
-  { destruct (Hp o eq_refl) as [Hf'|Hpos].
+  assert (dcount c = 0) as Hd0.
+  { destruct (Hp o eq_refl) as [Hf'|[Hpos|(c0 & Hcc & Hd)]].
     - rewrite Hf' in Hdc. destruct (_ =? 0); lia.
-    - destruct (Nat.eqb_spec (cnt (vars s) o + e o) 0); lia. }
+    - destruct (Nat.eqb_spec (cnt (vars s) o + e o) 0); lia.
+    - congruence. }
   split; simpl.
   - rewrite Hb, Hd0. reflexivity.
   - intros o'. destruct (Nat.eq_dec o o') as [<-|Hne].
@@ -285,7 +287,8 @@ Ltac ptsimp :=
 
 Lemma ctor_raw_inv s e f v p :
   GInv s e f -> v < length (vars s) -> getv s v = Dead ->
-  (forall o, p = Some o -> isf f o = true \/ 0 < cnt (vars s) o + e o) ->
+  (forall o, p = Some o -> isf f o = true \/ 0 < cnt (vars s) o + e o \/
+                           (exists c, nth_error (cells s) o = Some c /\ dcount c = 0)) ->
   GInv (ctor_raw s v p) e (unfresh f p).
 Proof.
   intros HG Hv Hd Hp. unfold ctor_raw. rewrite inc_setv_comm.
@@ -296,9 +299,10 @@ Proof.
 Qed.
 
 Lemma src_alive s w : Inv s -> live s w = true ->
-  forall o, ptr_of s w = Some o -> isf None o = true \/ 0 < cnt (vars s) o + 0.
+  forall o, ptr_of s w = Some o -> isf None o = true \/ 0 < cnt (vars s) o + 0 \/
+                                   (exists c, nth_error (cells s) o = Some c /\ dcount c = 0).
 Proof.
-  intros HI Hw o Hp. right. apply live_getv in Hw. rewrite Hp in Hw.
+  intros HI Hw o Hp. right. left. apply live_getv in Hw. rewrite Hp in Hw.
   pose proof (G_live_pos _ _ _ _ _ HI Hw). lia.
 Qed.
 
@@ -444,6 +448,26 @@ Proof.
   apply live_setv_same. rewrite len_vars_setv, vars_dec. now apply live_range.
 Qed.
 
+(** [*this = <temporary>]: move-assignment from the temporary in the extra variable [t], then its destructor *)
+Lemma temp_assign_inv k s2 v t :
+  Inv s2 -> length (vars s2) = S t -> live s2 v = true -> live s2 t = true ->
+  Inv (pop_temp (dtor_k k (move_assign s2 v t) t)).
+Proof.
+  intros H2 Hl2 Hv2 Ht2.
+  pose proof (move_assign_inv s2 v t H2 Hv2 Ht2) as H3.
+  pose proof (live_move_assign_src s2 v t Hv2 Ht2) as Ht3.
+  pose proof (len_vars_move_assign s2 v t) as Hl3. rewrite Hl2 in Hl3.
+  set (s3 := move_assign s2 v t) in *.
+  pose proof (dtor_k_inv k s3 t H3 Ht3) as H4.
+  pose proof (vars_dtor_k k s3 t) as Hvd.
+  apply G_pop; auto.
+  - rewrite Hvd. intros Hnil. apply (f_equal (@length hnd)) in Hnil.
+    rewrite length_upd, Hl3 in Hnil. discriminate.
+  - rewrite Hvd.
+    assert (t = length (vars s3) - 1) as Et by lia. rewrite Et. apply last_upd_last.
+    intros Hnil. rewrite Hnil in Hl3. discriminate.
+Qed.
+
 Lemma assign_fresh_inv s v x : Inv s -> live s v = true -> Inv (assign_fresh s v x).
 Proof.
   intros HI Hv. unfold assign_fresh, alloc. cbv beta iota.
@@ -468,19 +492,37 @@ Proof.
     - fold t in Hvr. lia. }
   assert (live s2 t = true) as Ht2.
   { unfold s2, ctor_raw. rewrite live_inc. apply live_setv_same. simpl. rewrite app_length. simpl. fold t. lia. }
-  pose proof (move_assign_inv s2 v t H2 Hv2 Ht2) as H3.
-  pose proof (live_move_assign_src s2 v t Hv2 Ht2) as Ht3.
-  pose proof (len_vars_move_assign s2 v t) as Hl3. rewrite Hl2 in Hl3.
-  set (s3 := move_assign s2 v t) in *.
-  pose proof (dtor_k_inv (nodel v) s3 t H3 Ht3) as H4.
-  pose proof (vars_dtor_k (nodel v) s3 t) as Hvd.
-  change (Inv (pop_temp (dtor_k (nodel v) s3 t))).
-  apply G_pop; auto.
-  - rewrite Hvd. intros Hnil. apply (f_equal (@length hnd)) in Hnil.
-    rewrite length_upd, Hl3 in Hnil. discriminate.
-  - rewrite Hvd.
-    assert (t = length (vars s3) - 1) as Et by lia. rewrite Et. apply last_upd_last.
-    intros Hnil. rewrite Hnil in Hl3. discriminate.
+  change (Inv (pop_temp (dtor_k (nodel v) (move_assign s2 v t) t))).
+  now apply temp_assign_inv.
+Qed.
+
+Lemma assign_null_inv s v : Inv s -> live s v = true -> Inv (assign_null nodel s v).
+Proof.
+  intros HI Hv. unfold assign_null, ctor_nullptr.
+  set (t := length (vars s)). pose proof (live_range _ _ Hv) as Hvr.
+  set (s2 := setv (push_temp s) t (Live None)).
+  assert (length (vars (push_temp s)) = S t) as Hlp by (simpl; rewrite app_length; simpl; fold t; lia).
+  assert (getv (push_temp s) t = Dead) as Hd.
+  { unfold getv. simpl. rewrite app_nth2 by (fold t; lia). fold t. now rewrite Nat.sub_diag. }
+  assert (Inv s2) as H2.
+  { apply G_setv with (e := fun _ => 0); [now apply G_push | lia |]. intros o. rewrite Hd. reflexivity. }
+  assert (length (vars s2) = S t) as Hl2 by (unfold s2; now rewrite len_vars_setv).
+  assert (live s2 v = true) as Hv2.
+  { unfold s2. rewrite live_setv_other; [|lia|fold t in Hvr; lia].
+    unfold live, getv in *. simpl. rewrite app_nth1 by (fold t; lia). exact Hv. }
+  assert (live s2 t = true) as Ht2 by (unfold s2; apply live_setv_same; lia).
+  now apply temp_assign_inv.
+Qed.
+
+(** adopting a raw pointer to any object that has not been destroyed: with other handles around (a raw pointer
+    adopted a second time) or with none (an object left alive by a no-delete handle) *)
+Lemma adopt_inv s v o : Inv s -> v < length (vars s) -> live s v = false -> alive s o = true ->
+  Inv (ctor_raw s v (Some o)).
+Proof.
+  intros HI Hv Hd Ha. unfold Inv. change None with (unfresh None (Some o)).
+  apply ctor_raw_inv; auto using notlive_getv.
+  intros o' [= <-]. right. right. unfold alive in Ha. destruct (nth_error (cells s) o) as [c|]; [|discriminate].
+  exists c. split; auto. now apply Nat.eqb_eq.
 Qed.
 
 Lemma unify_inv s v : Inv s -> live s v = true -> Inv (unify s v).
@@ -522,6 +564,9 @@ Proof.
   - now apply swap_inv.
   - now apply unify_inv.
   - now apply dtor_inv.
+  - now apply adopt_inv.
+  - now apply assign_null_inv.
+  - exact HI.
 Qed.
 
 Lemma step_inv s o : Inv s -> Inv (fst (step s o)).
@@ -577,25 +622,25 @@ Qed.
 (** objects are never removed from the heap list, Deleter calls are never undone, payloads never change *)
 Definition mono (s s' : state) : Prop :=
   forall o c, nth_error (cells s) o = Some c ->
-  exists c', nth_error (cells s') o = Some c' /\ dcount c <= dcount c' /\ orph c <= orph c' /\ val c' = val c.
+  exists c', nth_error (cells s') o = Some c' /\ dcount c <= dcount c' /\ val c' = val c.
 
 Lemma mono_refl s : mono s s.
 Proof. intros o c H. exists c. auto. Qed.
 
 Lemma mono_trans s1 s2 s3 : mono s1 s2 -> mono s2 s3 -> mono s1 s3.
 Proof.
-  intros H12 H23 o c H. destruct (H12 o c H) as (c2 & H2 & Hd2 & Ho2 & Hv2).
-  destruct (H23 o c2 H2) as (c3 & H3 & Hd3 & Ho3 & Hv3). exists c3. repeat split; auto; try lia; try congruence.
+  intros H12 H23 o c H. destruct (H12 o c H) as (c2 & H2 & Hd2 & Hv2).
+  destruct (H23 o c2 H2) as (c3 & H3 & Hd3 & Hv3). exists c3. repeat split; auto; try lia; try congruence.
 Qed.
 
 Lemma mono_same s0 s s' : cells s' = cells s -> mono s0 s -> mono s0 s'.
 Proof. intros Hc H o c Ho. rewrite Hc. now apply H. Qed.
 
 Lemma mono_upd s s' o c c' :
-  nth_error (cells s) o = Some c -> cells s' = upd (cells s) o c' -> dcount c <= dcount c' -> orph c <= orph c' ->
+  nth_error (cells s) o = Some c -> cells s' = upd (cells s) o c' -> dcount c <= dcount c' ->
   val c' = val c -> mono s s'.
 Proof.
-  intros Hc Hs Hd Hor Hv o1 c1 H1. rewrite Hs. destruct (Nat.eq_dec o o1) as [<-|Hne].
+  intros Hc Hs Hd Hv o1 c1 H1. rewrite Hs. destruct (Nat.eq_dec o o1) as [<-|Hne].
   - rewrite nth_error_upd_eq by (apply nth_error_Some; congruence).
     exists c'. rewrite Hc in H1. injection H1 as <-. auto.
   - rewrite nth_error_upd_ne by auto. exists c1. auto.
@@ -605,14 +650,14 @@ Lemma mono_inc s0 s p : mono s0 s -> mono s0 (inc_reference s p).
 Proof.
   intros H. eapply mono_trans; eauto. destruct p as [o|]; simpl; [|apply mono_refl].
   destruct (nth_error (cells s) o) as [c|] eqn:Hc; [|now apply mono_same with (s := s), mono_refl].
-  eapply mono_upd; [exact Hc | reflexivity | simpl; lia | simpl; lia | reflexivity].
+  eapply mono_upd; [exact Hc | reflexivity | simpl; lia | reflexivity].
 Qed.
 
 Lemma mono_dec nd s0 s p : mono s0 s -> mono s0 (dec_reference nd s p).
 Proof.
   intros H. eapply mono_trans; eauto. destruct p as [o|]; simpl; [|apply mono_refl].
   destruct (nth_error (cells s) o) as [c|] eqn:Hc; [|now apply mono_same with (s := s), mono_refl].
-  destruct (rc c - 1 =? 0); [destruct nd|]; (eapply mono_upd; [exact Hc | reflexivity | simpl; lia | simpl; lia | reflexivity]).
+  destruct (rc c - 1 =? 0); [destruct nd|]; (eapply mono_upd; [exact Hc | reflexivity | simpl; lia | reflexivity]).
 Qed.
 
 Lemma mono_setv s0 s v h : mono s0 s -> mono s0 (setv s v h).
@@ -651,10 +696,16 @@ Proof.
   destruct (rc c =? 1); [mono_steps|]. apply mono_assign_fresh. mono_steps.
 Qed.
 
+Lemma mono_assign_null s v : mono s (assign_null nodel s v).
+Proof.
+  unfold assign_null, dtor_k, ctor_nullptr. mono_steps. apply mono_move_assign. mono_steps.
+Qed.
+
 Lemma mono_exec s o : mono s (exec s o).
 Proof.
   destruct o; cbn [exec];
-    try (apply mono_assign_fresh, mono_refl); try (apply mono_move_assign, mono_refl); try apply mono_unify.
+    try (apply mono_assign_fresh, mono_refl); try (apply mono_move_assign, mono_refl); try apply mono_unify;
+    try apply mono_assign_null; try apply mono_refl.
   1:{ change (alloc s x) with (fst (alloc s x), length (cells s)). cbv iota beta. unfold ctor_raw.
       apply mono_inc, mono_setv, mono_alloc, mono_refl. }
   all: unfold ctor_default, ctor_nullptr, ctor_raw, copy_ctor, conv_copy_ctor, move_ctor, conv_move_ctor, copy_assign,
@@ -671,28 +722,31 @@ Proof.
   eapply mono_trans; [apply mono_step|apply IH].
 Qed.
 
-(** destroy_at_zero: one step destroys exactly the objects whose number of handles drops to zero in that step;
-    an object without handles never gets one back *)
+(** destroy_at_zero: one step destroys (or, through a no-delete handle, leaves alive without owner) exactly the objects
+    whose number of handles drops to zero in that step; the only way back is the adoption of an object that is still
+    alive (left by a no-delete handle); a destroyed object never gets a handle again *)
 Theorem destroy_at_the_drop n ops op o c :
   let s := run (init n) ops in
   let s' := fst (step s op) in
   nth_error (cells s) o = Some c ->
   exists c', nth_error (cells s') o = Some c' /\
-    dcount c' + orph c' = dcount c + orph c + (if (0 <? handles s o) && (handles s' o =? 0) then 1 else 0) /\
-    dcount c <= dcount c' /\ orph c <= orph c' /\
-    (handles s o = 0 -> handles s' o = 0) /\ val c' = val c.
+    dcount c' + orph c' + (if (handles s o =? 0) && (0 <? handles s' o) then 1 else 0)
+      = dcount c + orph c + (if (0 <? handles s o) && (handles s' o =? 0) then 1 else 0) /\
+    dcount c <= dcount c' /\
+    (dcount c = 1 -> handles s' o = 0) /\ val c' = val c.
 Proof.
   intros s s' Hc.
   pose proof (run_inv _ ops (init_inv n)) as HI. fold s in HI.
   pose proof (step_inv s op HI) as HI'. fold s' in HI'.
-  destruct (mono_step s op o c Hc) as (c' & Hc' & Hm & Hmo & Hv). fold s' in Hc'.
+  destruct (mono_step s op o c Hc) as (c' & Hc' & Hm & Hv). fold s' in Hc'.
   exists c'. split; auto.
   destruct HI as [_ H], HI' as [_ H']. specialize (H o). specialize (H' o).
   rewrite Hc in H. rewrite Hc' in H'. destruct H as [Hrc Hd], H' as [Hrc' Hd']. simpl in Hd, Hd'.
   unfold handles. rewrite Nat.add_0_r in *.
   destruct (Nat.eqb_spec (cnt (vars s) o) 0) as [Hz|Hnz];
   destruct (Nat.eqb_spec (cnt (vars s') o) 0) as [Hz'|Hnz'];
-  destruct (Nat.ltb_spec 0 (cnt (vars s) o)); simpl; repeat split; auto; try lia.
+  destruct (Nat.ltb_spec 0 (cnt (vars s) o)); destruct (Nat.ltb_spec 0 (cnt (vars s') o));
+  simpl; repeat split; auto; try lia.
 Qed.
 
 (** end of scope: after every variable still alive is destroyed, every object ever created has been destroyed
@@ -773,10 +827,10 @@ Lemma noorph_same s s' : cells s' = cells s -> noorph s -> noorph s'.
 Proof. intros Hc H o c Ho. rewrite Hc in Ho. eauto. Qed.
 
 Lemma noorph_upd s s' o c c' :
-  nth_error (cells s) o = Some c -> cells s' = upd (cells s) o c' -> orph c' = orph c -> noorph s -> noorph s'.
+  nth_error (cells s) o = Some c -> cells s' = upd (cells s) o c' -> orph c' <= orph c -> noorph s -> noorph s'.
 Proof.
   intros Hc Hs Ho H o1 c1 H1. rewrite Hs in H1. destruct (Nat.eq_dec o o1) as [<-|Hne].
-  - rewrite nth_error_upd_eq in H1 by (apply nth_error_Some; congruence). injection H1 as <-. rewrite Ho. eauto.
+  - rewrite nth_error_upd_eq in H1 by (apply nth_error_Some; congruence). injection H1 as <-. specialize (H _ _ Hc). lia.
   - rewrite nth_error_upd_ne in H1 by auto. eauto.
 Qed.
 
@@ -784,14 +838,14 @@ Lemma noorph_inc s p : noorph s -> noorph (inc_reference s p).
 Proof.
   intros H. destruct p as [o|]; simpl; auto.
   destruct (nth_error (cells s) o) as [c|] eqn:Hc; [|exact H].
-  eapply noorph_upd; [exact Hc | reflexivity | reflexivity | exact H].
+  eapply noorph_upd; [exact Hc | reflexivity | simpl; lia | exact H].
 Qed.
 
 Lemma noorph_dec s p : noorph s -> noorph (dec_reference false s p).
 Proof.
   intros H. destruct p as [o|]; simpl; auto.
   destruct (nth_error (cells s) o) as [c|] eqn:Hc; [|exact H].
-  destruct (rc c - 1 =? 0); (eapply noorph_upd; [exact Hc | reflexivity | reflexivity | exact H]).
+  destruct (rc c - 1 =? 0); (eapply noorph_upd; [exact Hc | reflexivity | simpl; lia | exact H]).
 Qed.
 
 Lemma noorph_setv s v h : noorph s -> noorph (setv s v h).
@@ -835,10 +889,16 @@ Proof.
   destruct (rc c =? 1); [noorph_steps|]. apply noorph_assign_fresh. noorph_steps.
 Qed.
 
+Lemma noorph_assign_null s v : noorph s -> noorph (assign_null nodel s v).
+Proof.
+  intros H. unfold assign_null, dtor_k, ctor_nullptr. rewrite Hdef. noorph_steps. apply noorph_move_assign. noorph_steps.
+Qed.
+
 Lemma noorph_exec s o : noorph s -> noorph (exec s o).
 Proof.
   intros H. destruct o; cbn [CPtr.exec];
-    try (now apply noorph_assign_fresh); try (now apply noorph_move_assign); try (now apply noorph_unify).
+    try (now apply noorph_assign_fresh); try (now apply noorph_move_assign); try (now apply noorph_unify);
+    try (now apply noorph_assign_null); try exact H.
   1:{ change (alloc s x) with (fst (alloc s x), length (cells s)). cbv iota beta. unfold ctor_raw.
       apply noorph_inc, noorph_setv. now apply noorph_alloc. }
   all: unfold ctor_default, ctor_nullptr, ctor_raw, copy_ctor, conv_copy_ctor, move_ctor, conv_move_ctor, CPtr.copy_assign,
